@@ -150,3 +150,37 @@ func TestHeaderModel(t *testing.T) {
 		}
 	}
 }
+
+// validCookieName is "the cookie serialises": axiom part-names-of-valid-names-are-valid says that appending "_<k>" to a
+// valid name, or to the name cut to 255-len(k) bytes, gives a valid name again; and an invalid name serialises to "".
+func TestPartNamesOfValidNamesAreValid(t *testing.T) {
+	r := rng()
+	valid := func(n string) bool { return (&http.Cookie{Name: n, Value: "v"}).String() != "" }
+	for i := 0; i < 5000; i++ {
+		n := randStr(r, tokenChars, 300)
+		if len(n) > 256 {
+			n = n[:256]
+		}
+		if !valid(n) {
+			if n != "" {
+				t.Fatalf("token name %q does not serialise", n)
+			}
+			continue
+		}
+		k := []int{0, 1, 9, 10, 99, 100, 12345, r.Intn(1 << 30)}[r.Intn(8)]
+		ks := strconv.Itoa(k)
+		if !valid(n + "_" + ks) {
+			t.Fatalf("part name of %q with index %d is not valid", n, k)
+		}
+		if len(n) >= 255-len(ks) {
+			if !valid(n[:255-len(ks)] + "_" + ks) {
+				t.Fatalf("cut part name of %q with index %d is not valid", n, k)
+			}
+		}
+	}
+	for _, bad := range []string{"", "a b", "a;b", "a=b", "a,b", "a\"b", "a(b", "ä", "a\x00b", "a\tb"} {
+		if valid(bad) {
+			t.Fatalf("name %q serialises although it is not a token", bad)
+		}
+	}
+}
